@@ -120,7 +120,14 @@ def lex_multichar_comments(
 
     if ("/*", "*/") in comments:
         if char == "*":
-            if prev_char == "/":
+            if preserve["state"] == Preserve.COMMENT and next_char == "/":
+                # Inside a comment, "*/" ends it, also when a slash stands
+                # before the asterisk (which the clause for slashes below
+                # has held back).
+                if prev_char == "/":
+                    lexeme += "/"
+                return lexeme + "*/", dict(state=Preserve.FALSE, end=None)
+            elif prev_char == "/":
                 return lexeme + "/*", dict(state=Preserve.COMMENT, end="*/")
             elif next_char == "/":
                 return lexeme + "*/", dict(state=Preserve.FALSE, end=None)
